@@ -104,14 +104,20 @@ type objState struct {
 
 // Sched is one controlled execution environment. Exactly one may be installed at a time.
 type Sched struct {
-	threads  []*thread
-	running  *thread
-	choices  []int // prefix to replay
-	pos      int
-	Points   []Point
-	Events   []Event
-	LogEvent bool
-	Counts   [nOpKinds]int
+	// SpinWaits counts the times a thread was found busy-waiting (and disabled until a value it polls changed);
+	// SpinInfo describes the first one
+	SpinWaits int
+	SpinInfo  string
+	addrObjs  map[unsafe.Pointer]*objState // objects of scalar atomics, by address (this epoch)
+	addrEpoch uint64
+	threads   []*thread
+	running   *thread
+	choices   []int // prefix to replay
+	pos       int
+	Points    []Point
+	Events    []Event
+	LogEvent  bool
+	Counts    [nOpKinds]int
 	// PerThreadCounts[t][kind]
 	PerThread  [][nOpKinds]int
 	clock      int64
@@ -268,6 +274,10 @@ func (s *Sched) point(kind OpKind, obj *objState, label string) {
 		if seen {
 			if t.spinCnt++; t.spinCnt > s.SpinLimit {
 				t.spinning = true
+				s.SpinWaits++
+				if s.SpinInfo == "" {
+					s.SpinInfo = fmt.Sprintf("thread T%d re-read the same atomic values %d times in a row without any other operation in between: it busy-waits until another thread changes one of them", t.id, t.spinCnt)
+				}
 			}
 		} else {
 			if len(t.spinSet) >= 64 {
@@ -996,93 +1006,169 @@ type Value struct {
 	real ratomic.Value
 }
 
+// aptAt is a scheduling point at an atomic operation on the scalar at address p: the address identifies the object,
+// so that a thread re-reading an unchanged value is recognised as busy-waiting like with atomic.Pointer.
+func aptAt(k OpKind, p unsafe.Pointer) {
+	if s := cur; s != nil {
+		if s.addrObjs == nil || s.addrEpoch != s.epoch {
+			s.addrObjs, s.addrEpoch = map[unsafe.Pointer]*objState{}, s.epoch
+		}
+		o := s.addrObjs[p]
+		if o == nil {
+			o = s.newObj()
+			s.addrObjs[p] = o
+		}
+		s.point(k, o, "atomic")
+	}
+}
+
 func apt(k OpKind) {
 	if s := cur; s != nil {
 		s.point(k, nil, "atomic")
 	}
 }
 
-func (v *Value) Load() any                    { apt(OpLoad); return v.real.Load() }
-func (v *Value) Store(x any)                  { apt(OpStore); v.real.Store(x) }
-func (v *Value) Swap(x any) any               { apt(OpSwap); return v.real.Swap(x) }
-func (v *Value) CompareAndSwap(o, n any) bool { apt(OpCAS); return v.real.CompareAndSwap(o, n) }
+func (v *Value) Load() any      { aptAt(OpLoad, unsafe.Pointer(v)); return v.real.Load() }
+func (v *Value) Store(x any)    { aptAt(OpStore, unsafe.Pointer(v)); v.real.Store(x) }
+func (v *Value) Swap(x any) any { aptAt(OpSwap, unsafe.Pointer(v)); return v.real.Swap(x) }
+func (v *Value) CompareAndSwap(o, n any) bool {
+	aptAt(OpCAS, unsafe.Pointer(v))
+	return v.real.CompareAndSwap(o, n)
+}
 
 // Bool replaces atomic.Bool.
 type Bool struct{ real ratomic.Bool }
 
-func (b *Bool) Load() bool                    { apt(OpLoad); return b.real.Load() }
-func (b *Bool) Store(v bool)                  { apt(OpStore); b.real.Store(v) }
-func (b *Bool) Swap(v bool) bool              { apt(OpSwap); return b.real.Swap(v) }
-func (b *Bool) CompareAndSwap(o, n bool) bool { apt(OpCAS); return b.real.CompareAndSwap(o, n) }
+func (b *Bool) Load() bool       { aptAt(OpLoad, unsafe.Pointer(b)); return b.real.Load() }
+func (b *Bool) Store(v bool)     { aptAt(OpStore, unsafe.Pointer(b)); b.real.Store(v) }
+func (b *Bool) Swap(v bool) bool { aptAt(OpSwap, unsafe.Pointer(b)); return b.real.Swap(v) }
+func (b *Bool) CompareAndSwap(o, n bool) bool {
+	aptAt(OpCAS, unsafe.Pointer(b))
+	return b.real.CompareAndSwap(o, n)
+}
 
 // Int32 replaces atomic.Int32.
 type Int32 struct{ real ratomic.Int32 }
 
-func (x *Int32) Load() int32                    { apt(OpLoad); return x.real.Load() }
-func (x *Int32) Store(v int32)                  { apt(OpStore); x.real.Store(v) }
-func (x *Int32) Swap(v int32) int32             { apt(OpSwap); return x.real.Swap(v) }
-func (x *Int32) Add(d int32) int32              { apt(OpAdd); return x.real.Add(d) }
-func (x *Int32) CompareAndSwap(o, n int32) bool { apt(OpCAS); return x.real.CompareAndSwap(o, n) }
+func (x *Int32) Load() int32        { aptAt(OpLoad, unsafe.Pointer(x)); return x.real.Load() }
+func (x *Int32) Store(v int32)      { aptAt(OpStore, unsafe.Pointer(x)); x.real.Store(v) }
+func (x *Int32) Swap(v int32) int32 { aptAt(OpSwap, unsafe.Pointer(x)); return x.real.Swap(v) }
+func (x *Int32) Add(d int32) int32  { aptAt(OpAdd, unsafe.Pointer(x)); return x.real.Add(d) }
+func (x *Int32) CompareAndSwap(o, n int32) bool {
+	aptAt(OpCAS, unsafe.Pointer(x))
+	return x.real.CompareAndSwap(o, n)
+}
 
 // Int64 replaces atomic.Int64.
 type Int64 struct{ real ratomic.Int64 }
 
-func (x *Int64) Load() int64                    { apt(OpLoad); return x.real.Load() }
-func (x *Int64) Store(v int64)                  { apt(OpStore); x.real.Store(v) }
-func (x *Int64) Swap(v int64) int64             { apt(OpSwap); return x.real.Swap(v) }
-func (x *Int64) Add(d int64) int64              { apt(OpAdd); return x.real.Add(d) }
-func (x *Int64) CompareAndSwap(o, n int64) bool { apt(OpCAS); return x.real.CompareAndSwap(o, n) }
+func (x *Int64) Load() int64        { aptAt(OpLoad, unsafe.Pointer(x)); return x.real.Load() }
+func (x *Int64) Store(v int64)      { aptAt(OpStore, unsafe.Pointer(x)); x.real.Store(v) }
+func (x *Int64) Swap(v int64) int64 { aptAt(OpSwap, unsafe.Pointer(x)); return x.real.Swap(v) }
+func (x *Int64) Add(d int64) int64  { aptAt(OpAdd, unsafe.Pointer(x)); return x.real.Add(d) }
+func (x *Int64) CompareAndSwap(o, n int64) bool {
+	aptAt(OpCAS, unsafe.Pointer(x))
+	return x.real.CompareAndSwap(o, n)
+}
 
 // Uint32 replaces atomic.Uint32.
 type Uint32 struct{ real ratomic.Uint32 }
 
-func (x *Uint32) Load() uint32                    { apt(OpLoad); return x.real.Load() }
-func (x *Uint32) Store(v uint32)                  { apt(OpStore); x.real.Store(v) }
-func (x *Uint32) Swap(v uint32) uint32            { apt(OpSwap); return x.real.Swap(v) }
-func (x *Uint32) Add(d uint32) uint32             { apt(OpAdd); return x.real.Add(d) }
-func (x *Uint32) CompareAndSwap(o, n uint32) bool { apt(OpCAS); return x.real.CompareAndSwap(o, n) }
+func (x *Uint32) Load() uint32         { aptAt(OpLoad, unsafe.Pointer(x)); return x.real.Load() }
+func (x *Uint32) Store(v uint32)       { aptAt(OpStore, unsafe.Pointer(x)); x.real.Store(v) }
+func (x *Uint32) Swap(v uint32) uint32 { aptAt(OpSwap, unsafe.Pointer(x)); return x.real.Swap(v) }
+func (x *Uint32) Add(d uint32) uint32  { aptAt(OpAdd, unsafe.Pointer(x)); return x.real.Add(d) }
+func (x *Uint32) CompareAndSwap(o, n uint32) bool {
+	aptAt(OpCAS, unsafe.Pointer(x))
+	return x.real.CompareAndSwap(o, n)
+}
 
 // Uint64 replaces atomic.Uint64.
 type Uint64 struct{ real ratomic.Uint64 }
 
-func (x *Uint64) Load() uint64                    { apt(OpLoad); return x.real.Load() }
-func (x *Uint64) Store(v uint64)                  { apt(OpStore); x.real.Store(v) }
-func (x *Uint64) Swap(v uint64) uint64            { apt(OpSwap); return x.real.Swap(v) }
-func (x *Uint64) Add(d uint64) uint64             { apt(OpAdd); return x.real.Add(d) }
-func (x *Uint64) CompareAndSwap(o, n uint64) bool { apt(OpCAS); return x.real.CompareAndSwap(o, n) }
+func (x *Uint64) Load() uint64         { aptAt(OpLoad, unsafe.Pointer(x)); return x.real.Load() }
+func (x *Uint64) Store(v uint64)       { aptAt(OpStore, unsafe.Pointer(x)); x.real.Store(v) }
+func (x *Uint64) Swap(v uint64) uint64 { aptAt(OpSwap, unsafe.Pointer(x)); return x.real.Swap(v) }
+func (x *Uint64) Add(d uint64) uint64  { aptAt(OpAdd, unsafe.Pointer(x)); return x.real.Add(d) }
+func (x *Uint64) CompareAndSwap(o, n uint64) bool {
+	aptAt(OpCAS, unsafe.Pointer(x))
+	return x.real.CompareAndSwap(o, n)
+}
 
 // Uintptr replaces atomic.Uintptr.
 type Uintptr struct{ real ratomic.Uintptr }
 
-func (x *Uintptr) Load() uintptr                    { apt(OpLoad); return x.real.Load() }
-func (x *Uintptr) Store(v uintptr)                  { apt(OpStore); x.real.Store(v) }
-func (x *Uintptr) Swap(v uintptr) uintptr           { apt(OpSwap); return x.real.Swap(v) }
-func (x *Uintptr) Add(d uintptr) uintptr            { apt(OpAdd); return x.real.Add(d) }
-func (x *Uintptr) CompareAndSwap(o, n uintptr) bool { apt(OpCAS); return x.real.CompareAndSwap(o, n) }
+func (x *Uintptr) Load() uintptr          { aptAt(OpLoad, unsafe.Pointer(x)); return x.real.Load() }
+func (x *Uintptr) Store(v uintptr)        { aptAt(OpStore, unsafe.Pointer(x)); x.real.Store(v) }
+func (x *Uintptr) Swap(v uintptr) uintptr { aptAt(OpSwap, unsafe.Pointer(x)); return x.real.Swap(v) }
+func (x *Uintptr) Add(d uintptr) uintptr  { aptAt(OpAdd, unsafe.Pointer(x)); return x.real.Add(d) }
+func (x *Uintptr) CompareAndSwap(o, n uintptr) bool {
+	aptAt(OpCAS, unsafe.Pointer(x))
+	return x.real.CompareAndSwap(o, n)
+}
 
 // Free functions of sync/atomic.
-func LoadInt32(p *int32) int32                         { apt(OpLoad); return ratomic.LoadInt32(p) }
-func LoadInt64(p *int64) int64                         { apt(OpLoad); return ratomic.LoadInt64(p) }
-func LoadUint32(p *uint32) uint32                      { apt(OpLoad); return ratomic.LoadUint32(p) }
-func LoadUint64(p *uint64) uint64                      { apt(OpLoad); return ratomic.LoadUint64(p) }
-func LoadUintptr(p *uintptr) uintptr                   { apt(OpLoad); return ratomic.LoadUintptr(p) }
-func LoadPointer(p *unsafe.Pointer) unsafe.Pointer     { apt(OpLoad); return ratomic.LoadPointer(p) }
-func StoreInt32(p *int32, v int32)                     { apt(OpStore); ratomic.StoreInt32(p, v) }
-func StoreInt64(p *int64, v int64)                     { apt(OpStore); ratomic.StoreInt64(p, v) }
-func StoreUint32(p *uint32, v uint32)                  { apt(OpStore); ratomic.StoreUint32(p, v) }
-func StoreUint64(p *uint64, v uint64)                  { apt(OpStore); ratomic.StoreUint64(p, v) }
-func StoreUintptr(p *uintptr, v uintptr)               { apt(OpStore); ratomic.StoreUintptr(p, v) }
-func StorePointer(p *unsafe.Pointer, v unsafe.Pointer) { apt(OpStore); ratomic.StorePointer(p, v) }
-func AddInt32(p *int32, d int32) int32                 { apt(OpAdd); return ratomic.AddInt32(p, d) }
-func AddInt64(p *int64, d int64) int64                 { apt(OpAdd); return ratomic.AddInt64(p, d) }
-func AddUint32(p *uint32, d uint32) uint32             { apt(OpAdd); return ratomic.AddUint32(p, d) }
-func AddUint64(p *uint64, d uint64) uint64             { apt(OpAdd); return ratomic.AddUint64(p, d) }
-func AddUintptr(p *uintptr, d uintptr) uintptr         { apt(OpAdd); return ratomic.AddUintptr(p, d) }
-func SwapInt32(p *int32, v int32) int32                { apt(OpSwap); return ratomic.SwapInt32(p, v) }
-func SwapInt64(p *int64, v int64) int64                { apt(OpSwap); return ratomic.SwapInt64(p, v) }
-func SwapUint32(p *uint32, v uint32) uint32            { apt(OpSwap); return ratomic.SwapUint32(p, v) }
-func SwapUint64(p *uint64, v uint64) uint64            { apt(OpSwap); return ratomic.SwapUint64(p, v) }
-func SwapUintptr(p *uintptr, v uintptr) uintptr        { apt(OpSwap); return ratomic.SwapUintptr(p, v) }
+func LoadInt32(p *int32) int32       { aptAt(OpLoad, unsafe.Pointer(p)); return ratomic.LoadInt32(p) }
+func LoadInt64(p *int64) int64       { aptAt(OpLoad, unsafe.Pointer(p)); return ratomic.LoadInt64(p) }
+func LoadUint32(p *uint32) uint32    { aptAt(OpLoad, unsafe.Pointer(p)); return ratomic.LoadUint32(p) }
+func LoadUint64(p *uint64) uint64    { aptAt(OpLoad, unsafe.Pointer(p)); return ratomic.LoadUint64(p) }
+func LoadUintptr(p *uintptr) uintptr { aptAt(OpLoad, unsafe.Pointer(p)); return ratomic.LoadUintptr(p) }
+func LoadPointer(p *unsafe.Pointer) unsafe.Pointer {
+	aptAt(OpLoad, unsafe.Pointer(p))
+	return ratomic.LoadPointer(p)
+}
+func StoreInt32(p *int32, v int32)    { aptAt(OpStore, unsafe.Pointer(p)); ratomic.StoreInt32(p, v) }
+func StoreInt64(p *int64, v int64)    { aptAt(OpStore, unsafe.Pointer(p)); ratomic.StoreInt64(p, v) }
+func StoreUint32(p *uint32, v uint32) { aptAt(OpStore, unsafe.Pointer(p)); ratomic.StoreUint32(p, v) }
+func StoreUint64(p *uint64, v uint64) { aptAt(OpStore, unsafe.Pointer(p)); ratomic.StoreUint64(p, v) }
+func StoreUintptr(p *uintptr, v uintptr) {
+	aptAt(OpStore, unsafe.Pointer(p))
+	ratomic.StoreUintptr(p, v)
+}
+func StorePointer(p *unsafe.Pointer, v unsafe.Pointer) {
+	aptAt(OpStore, unsafe.Pointer(p))
+	ratomic.StorePointer(p, v)
+}
+func AddInt32(p *int32, d int32) int32 {
+	aptAt(OpAdd, unsafe.Pointer(p))
+	return ratomic.AddInt32(p, d)
+}
+func AddInt64(p *int64, d int64) int64 {
+	aptAt(OpAdd, unsafe.Pointer(p))
+	return ratomic.AddInt64(p, d)
+}
+func AddUint32(p *uint32, d uint32) uint32 {
+	aptAt(OpAdd, unsafe.Pointer(p))
+	return ratomic.AddUint32(p, d)
+}
+func AddUint64(p *uint64, d uint64) uint64 {
+	aptAt(OpAdd, unsafe.Pointer(p))
+	return ratomic.AddUint64(p, d)
+}
+func AddUintptr(p *uintptr, d uintptr) uintptr {
+	aptAt(OpAdd, unsafe.Pointer(p))
+	return ratomic.AddUintptr(p, d)
+}
+func SwapInt32(p *int32, v int32) int32 {
+	aptAt(OpSwap, unsafe.Pointer(p))
+	return ratomic.SwapInt32(p, v)
+}
+func SwapInt64(p *int64, v int64) int64 {
+	aptAt(OpSwap, unsafe.Pointer(p))
+	return ratomic.SwapInt64(p, v)
+}
+func SwapUint32(p *uint32, v uint32) uint32 {
+	aptAt(OpSwap, unsafe.Pointer(p))
+	return ratomic.SwapUint32(p, v)
+}
+func SwapUint64(p *uint64, v uint64) uint64 {
+	aptAt(OpSwap, unsafe.Pointer(p))
+	return ratomic.SwapUint64(p, v)
+}
+func SwapUintptr(p *uintptr, v uintptr) uintptr {
+	aptAt(OpSwap, unsafe.Pointer(p))
+	return ratomic.SwapUintptr(p, v)
+}
 func SwapPointer(p *unsafe.Pointer, v unsafe.Pointer) unsafe.Pointer {
 	apt(OpSwap)
 	return ratomic.SwapPointer(p, v)
